@@ -56,7 +56,7 @@ fn props() -> Vec<PropDef> {
 		p!("C10", "exploration", c10),
 		p!("C11", "exploration", c11),
 		p!("C12", "exploration", c12),
-		p!("C13", "exploration", c13),
+		p!("C13", "exploration", c13, part),
 		p!("C14", "exploration", c14),
 		p!("C15", "exploration", c15),
 		p!("C16", "exploration", c16),
